@@ -13,7 +13,11 @@
     pkg/util/parse_utils.go                         ParseWorkload / GetReplicas, GetStatefulSetPartition,
                                                     SetStatefulSetPartition, IsStatefulSetUnorderedUpdate
                                                     (typed native / typed advanced / unstructured branches)
-    pkg/util/workloads_utils.go                     GetEmptyWorkloadObject (typed vs. unstructured)
+    pkg/util/workloads_utils.go                     GetEmptyWorkloadObject (typed vs. unstructured), IsOwnedBy
+    pkg/util/pod_utils.go                           ListOwnedPods, IsCompletedPod, WrappedPodCount,
+                                                    IsConsistentWithRevision, IsPodReady
+    pkg/controller/batchrelease/control/partitionstyle/control_plane.go
+        realBatchControlPlane.EnsureBatchPodsReadyAndLabeled        (section "the pods behind updatedReadyReplicas")
     pkg/webhook/workload/mutating/unified_update_handler.go   handleStatefulSetLikeWorkload   (RV.Webhook)
     pkg/webhook/workload/mutating/workload_update_handler.go  handleDaemonSet                 (RV.Webhook)
 
@@ -94,6 +98,8 @@ structure Rel where
   updated : Int
   /-- `status.canaryStatus.noNeedUpdateReplicas` -/
   noNeedUpdate : Option Int
+  /-- `spec.releasePlan.failureThreshold` (read by the readiness verdict only) -/
+  failureThreshold : Option IntOrPct := none
   deriving Repr, DecidableEq, Inhabited
 
 inductive Fault where
@@ -435,5 +441,181 @@ def runV (c : Cfg) (d : Option Wl) : List Step → List StepOut
     match step c d s with
     | .panic => []
     | .val o => o :: runV c o.wl ss
+
+/-! ### the pods behind `updatedReadyReplicas`
+
+  Neither the StatefulSets nor the Advanced DaemonSet report `status.updatedReadyReplicas`; an unstructured
+  StatefulSet-like workload may.  `realController.BuildController` (both controls) therefore **lists the
+  workload's pods and counts** whenever the status counter is `≤ 0`; the count feeds
+  `CalculateBatchContext` → `BatchContext.IsBatchReady` → the BatchRelease's `Ready` state. -/
+
+/-- `metav1.GetControllerOf(pod)` and what `util.IsOwnedBy` finds behind it -/
+inductive PodOwner where
+  /-- no owner reference with `controller: true` (none at all, or a plain reference) -/
+  | none
+  /-- the controller reference carries the workload's UID -/
+  | this
+  /-- another UID: `IsOwnedBy` fetches the named owner and asks again; `viaOwned` = that object exists and its
+      own controller reference carries the workload's UID (an object that is missing, of a stale UID, or owned
+      by somebody else is `false`) -/
+  | other (viaOwned : Bool)
+  deriving Repr, DecidableEq, Inhabited
+
+/-- a pod of the cluster, as `ListOwnedPods` and the counting filter read it -/
+structure Pod where
+  /-- in the workload's namespace (`ListOptions.Namespace`) -/
+  inNamespace : Bool
+  /-- its labels match the workload's `spec.selector` (`ListOptions.LabelSelector`) -/
+  selMatch : Bool
+  /-- `status.phase` -/
+  phase : String
+  owner : PodOwner
+  /-- `metadata.deletionTimestamp` is set (`!DeletionTimestamp.IsZero()`) -/
+  terminating : Bool
+  /-- label `pod-template-hash` (`""`: absent) -/
+  hashLabel : String
+  /-- label `controller-revision-hash` (`""`: absent) -/
+  revLabel : String
+  /-- `status.conditions` as (type, status) -/
+  conds : List (String × String)
+  deriving Repr, DecidableEq, Inhabited
+
+/-- the status fields of the workload read on the way to the verdict -/
+structure WlStatus where
+  /-- `status.updateRevision` (DaemonSet: `status.daemonSetHash`) -/
+  updateRevision : String
+  /-- `status.updatedReplicas` (DaemonSet: `status.updatedNumberScheduled`) -/
+  updated : Int
+  /-- `status.readyReplicas` (DaemonSet: `status.numberReady`) — parsed, but read by nothing modelled here -/
+  ready : Int
+  deriving Repr, DecidableEq, Inhabited
+
+/-- what the cluster holds besides the workload's spec -/
+structure Cluster where
+  status : WlStatus
+  pods : List Pod
+  deriving Repr, DecidableEq, Inhabited
+
+/-- `util.IsCompletedPod` -/
+def isCompleted (p : Pod) : Bool := p.phase == "Failed" || p.phase == "Succeeded"
+
+/-- `util.IsOwnedBy(c, pod, workload)` -/
+def isOwned : PodOwner → Bool
+  | .none => false
+  | .this => true
+  | .other viaOwned => viaOwned
+
+/-- `util.ListOwnedPods`: the List (namespace + label selector), then the loop dropping completed pods and pods
+    the workload does not own; terminating pods stay -/
+def listOwned (pods : List Pod) : List Pod :=
+  (pods.filter fun p => p.inNamespace && p.selMatch).filter fun p =>
+    if isCompleted p then false
+    else if !isOwned p.owner then false
+    else true
+
+/-- `util.WrappedPodCount` -/
+def wrappedPodCount (filter : Pod → Bool) (pods : List Pod) : Int :=
+  pods.foldl (fun count p => if filter p then count + 1 else count) 0
+
+/-- `strings.HasSuffix(s, suffix)` -/
+def hasSuffix (s suffix : String) : Bool := suffix.toList.isSuffixOf s.toList
+
+/-- `util.IsConsistentWithRevision(pod.GetLabels(), revision)` -/
+def isConsistent (p : Pod) (revision : String) : Bool :=
+  if p.hashLabel != "" && hasSuffix revision p.hashLabel then true
+  else if p.revLabel != "" && hasSuffix revision p.revLabel then true
+  else false
+
+/-- `util.IsPodReady`: the first condition of type `Ready` exists and has status `True` -/
+def isPodReady (p : Pod) : Bool :=
+  match p.conds.find? (fun c => c.1 == "Ready") with
+  | some c => c.2 == "True"
+  | none => false
+
+/-- the filter `BuildController` hands to `WrappedPodCount` (both controls) -/
+def countsFilter (revision : String) (p : Pod) : Bool :=
+  if p.terminating then false            -- `!pod.DeletionTimestamp.IsZero()`
+  else if !isConsistent p revision then false
+  else isPodReady p
+
+/-- the counter `BuildController` computes from the pods of the cluster -/
+def updatedReadyOf (revision : String) (pods : List Pod) : Int :=
+  wrappedPodCount (countsFilter revision) (listOwned pods)
+
+/-- the counters of `rc.WorkloadInfo` after `BuildController` -/
+structure Counters where
+  replicas : Int
+  /-- `Status.UpdatedReplicas`: the workload controller's own counter -/
+  updated : Int
+  /-- `Status.UpdatedReadyReplicas`: counted from the pods when the status does not carry it (`needsList`) -/
+  updatedReady : Int
+  deriving Repr, DecidableEq, Inhabited
+
+def countersOf (w : Wl) (r : Int) (cl : Cluster) : Counters :=
+  { replicas := r, updated := cl.status.updated,
+    updatedReady := if needsList w then updatedReadyOf cl.status.updateRevision cl.pods else w.updatedReady }
+
+/-- `realController.CalculateBatchContext` (both controls) for plan entry `e`: the fields `IsBatchReady` reads,
+    through `RV.BatchCtx` (kinds `stsOrdered` / `stsUnordered` / `daemonSet`) -/
+def batchCtxOf (rel : Rel) (w : Wl) (c : Counters) (e : IntOrPct) : RV.BatchCtx.Ctx :=
+  { replicas := c.replicas, updated := c.updated, updatedReady := c.updatedReady,
+    planned := RV.BatchCtx.plannedOf (bkind w) c.replicas e rel.noNeedUpdate,
+    desired := RV.BatchCtx.desiredOf (bkind w) c.replicas e rel.noNeedUpdate,
+    knobCur := int (currentPartition w.us),
+    knobDes := RV.BatchCtx.desKnob (bkind w) c.replicas e rel.noNeedUpdate,
+    failureThreshold := rel.failureThreshold }
+
+/-- what `EnsureBatchPodsReadyAndLabeled` returns: `IsBatchReady`'s answer, or an error on the way to it -/
+inductive Verdict where
+  | is (r : RV.BatchCtx.Ready)
+  | err
+  deriving Repr, DecidableEq
+
+/-- everything observable of one readiness check: the counters after `BuildController` (`none`: it failed), the
+    context (`none`: not computed — failure or empty workload), the verdict -/
+structure VerdictOut where
+  counters : Option Counters
+  ctx : Option RV.BatchCtx.Ctx
+  verdict : Verdict
+  /-- mutating API calls issued: the check only reads -/
+  writes : Nat := 0
+  deriving Repr, DecidableEq
+
+/-- `realBatchControlPlane.EnsureBatchPodsReadyAndLabeled` with an empty rollout-id (`batchLabelSatisfied` is
+    vacuous); `batch` = `status.canaryStatus.currentBatch` -/
+def planeVerdict (rel : Rel) (batch : Int) (d : Option Wl) (cl : Cluster) (f : Fault) : Out VerdictOut :=
+  match build d f with
+  | .panic => .panic
+  | .err | .notFound => .val { counters := none, ctx := none, verdict := .err }
+  | .ok w r =>
+    let c := countersOf w r cl
+    if r = 0 then .val { counters := some c, ctx := none, verdict := .is .ok } else
+    -- CalculateBatchContext: `Batches[currentBatch]`
+    if batch < 0 then .panic else
+    match rel.batches[batch.toNat]? with
+    | none => .panic
+    | some e =>
+      let bc := batchCtxOf rel w c e
+      .val { counters := some c, ctx := some bc, verdict := .is (RV.BatchCtx.isBatchReady bc none) }
+
+/-- how a pod of the cluster degrades between two readiness checks -/
+inductive Degrade where
+  | notReady | terminating | otherRevision | deleted | failed | disowned
+  deriving Repr, DecidableEq, Inhabited
+
+def degradePod (h : Degrade) (p : Pod) : Option Pod :=
+  match h with
+  | .notReady => some { p with conds := [("Ready", "False")] }
+  | .terminating => some { p with terminating := true }
+  | .otherRevision => some { p with hashLabel := "", revLabel := "" }
+  | .deleted => none
+  | .failed => some { p with phase := "Failed" }
+  | .disowned => some { p with owner := .none }
+
+/-- the pods after pod number `i` degraded -/
+def degradeAt (h : Degrade) : Nat → List Pod → List Pod
+  | _, [] => []
+  | 0, p :: ps => (degradePod h p).toList ++ ps
+  | i + 1, p :: ps => p :: degradeAt h i ps
 
 end RV.CtlSts
